@@ -564,6 +564,10 @@ func (g *Gen) specCall(env *Env, e *Expr) *Val {
 		if a == nil {
 			return nil
 		}
+		if (a.Sort == "Slice" || a.Sort == "Ptr") && len(a.S) >= 2 {
+			// a fresh slice or pointer starts at offset 0 of its new object
+			return scalar("Bool", fmt.Sprintf("(and (>= %s %s) (< %s %s) (= %s 0))", a.S[0], env.oldNextobj, a.S[0], env.nextobj, a.S[1]), nil)
+		}
 		return scalar("Bool", fmt.Sprintf("(and (>= %s %s) (< %s %s))", a.S[0], env.oldNextobj, a.S[0], env.nextobj), nil)
 	case "pow2":
 		a := g.specVal(env, args[0])
